@@ -365,9 +365,14 @@ type c15Script3 struct {
 func (s *c15Script3) Info(sdf.SDF3) string { return "scripted" }
 func (s *c15Script3) Render(_ sdf.SDF3, out sdf.Triangle3Writer) {
 	pos := 0
-	for _, b := range s.bs {
+	for i, b := range s.bs {
 		out.Write(s.ts[pos : pos+b])
 		pos += b
+		// an assembly renderer runs one stock renderer per part over the same writer, and each of them ends with Close
+		// (documented as a flush): in a third of the scripts some batches are followed by a Close
+		if len(s.bs)%3 == 1 && i%2 == 0 {
+			out.Close()
+		}
 	}
 	out.Close()
 }
@@ -380,9 +385,14 @@ type c15Script2 struct {
 func (s *c15Script2) Info(sdf.SDF2) string { return "scripted" }
 func (s *c15Script2) Render(_ sdf.SDF2, out sdf.Line2Writer) {
 	pos := 0
-	for _, b := range s.bs {
+	for i, b := range s.bs {
 		out.Write(s.ls[pos : pos+b])
 		pos += b
+		// an assembly renderer runs one stock renderer per part over the same writer, and each of them ends with Close
+		// (documented as a flush): in a third of the scripts some batches are followed by a Close
+		if len(s.bs)%3 == 1 && i%2 == 0 {
+			out.Close()
+		}
 	}
 	out.Close()
 }
@@ -702,6 +712,34 @@ func c15Run(c *Ctx, cs *c15Case, dir string, st *c15Stats) *c15Fail {
 	file := filepath.Join(dir, fmt.Sprintf("c%06d.%s", cs.Idx, cs.Format))
 	defer os.Remove(file)
 	n := len(cs.pts)
+	// history: in some cases the path already holds an earlier, longer export of the same kind (the same geometry twice
+	// over plus a little more, written through the same call) or unrelated bytes
+	switch cs.Idx % 6 {
+	case 1:
+		os.WriteFile(file, bytes.Repeat([]byte("stale bytes of an earlier, longer file\n"), 300+40*n), 0644)
+	case 4:
+		rp := c.Rng("case-earlier", cs.Idx)
+		k, dim := 2, 2
+		if cs.Format == "3mf" {
+			k, dim = 3, 3
+		}
+		more := append(append(append([][][3]float64{}, cs.pts...), cs.pts...), c15Gen(rp, 40, k, dim, "unit", c15Res(cs.Format))...)
+		switch {
+		case cs.Format == "3mf":
+			s3, _ := sdf.Sphere3D(1)
+			render.To3MF(s3, file, &c15Script3{c15Tris(more, rp), c15Batches(rp, len(more))})
+		case cs.Format == "dxf" && cs.Path == "batch":
+			render.SaveDXF(file, c15Lines(more))
+		case cs.Format == "dxf":
+			s2, _ := sdf.Circle2D(1)
+			render.ToDXF(s2, file, &c15Script2{c15Lines(more), c15Batches(rp, len(more))})
+		case cs.Path == "batch":
+			render.SaveSVG(file, c15Styles[0], c15Lines(more))
+		default:
+			s2, _ := sdf.Circle2D(1)
+			render.ToSVG(s2, file, &c15Script2{c15Lines(more), c15Batches(rp, len(more))})
+		}
+	}
 	switch cs.Format {
 	case "3mf":
 		s3, _ := sdf.Sphere3D(1)
